@@ -185,5 +185,5 @@ DecodeMovie(img) ==
             ftyp |-> DecFtyp(fb, fk),
             mdats |-> SelectSeq(bs, LAMBDA x : x.t = MDAT),
             mvhd |-> DecMvhd(mb, Kid(ks, MVHD)),
-            traks |-> traks, mb |-> mb ]
+            traks |-> traks, mb |-> mb, mk |-> mk ]
 =============================================================================
